@@ -296,3 +296,10 @@ package engine
 //@ props C03 C04 C12
 //@ modifies nothing
 //@ ensures [pool-of-the-given-configuration] fresh(result) && result.InstancePoolConfig == conf && result.metrics == m && result.sharedGunDeps == nil
+
+// Waiting for the engine's background tasks is waiting for its wait group (every pool releases it exactly once: see instancePool.Run).
+//@ func (e *Engine) Wait
+//@ props C05 C06
+//@ nilsafe
+//@ requires e != nil
+//@ ensures calls(e.wait.Wait) == 1
